@@ -268,6 +268,44 @@ ENVS = {
 }
 
 
+class VirtualBootScn:
+    """the source-shipping bootstrap over a (virtual) pipe of ordinary capacity: the ~66 KB program
+    line must arrive whole whatever the stream layer under the gateway does with large writes"""
+
+    @staticmethod
+    def scenario(w, P):
+        from .common import Session
+
+        S = Session(w, "popen", "thread")
+
+        def main():
+            from execnet.multi import Group
+
+            S.group = g = Group(execmodel=S.proc.execmodel)
+            try:
+                if P["path"] == "exec":
+                    gw = g.makegateway("popen//python=python3//id=gw0")
+                else:
+                    g.makegateway("popen//id=m")
+                    gw = g.makegateway("popen//via=m//python=python3//id=gw0")
+                ch = gw.remote_exec("channel.send(channel.receive() + 1)")
+                ch.send(41)
+                S.ctx["echo"] = ch.receive(timeout=20)
+            except BaseException as e:  # noqa: BLE001
+                S.ctx["exc"] = f"{type(e).__name__}: {str(e)[:200]}"
+            S.ctx["done"] = True
+            g.terminate(timeout=2.0)
+
+        S.main(main)
+        return S
+
+    @staticmethod
+    def oracle(w, S, P):
+        if S.ctx.get("echo") != 42:
+            return ("c15:virtual-bootstrap", f"source-bootstrapped worker ({P['path']}) did not come up / echo: {S.ctx.get('echo')!r} {S.ctx.get('exc')} blocked={w.blocked_at_end} stderr={w.stderr.getvalue()[-300:]}"), 0
+        return None, 1
+
+
 def cell(c):
     path, py, model = c[:3]
     env = dict(os.environ)
@@ -308,6 +346,13 @@ def run(tier: str, only=None) -> int:
             for path in ("exec", "via") if tier == "quick" else ("exec", "via", "socket"):
                 for py in interps[:1] if tier == "quick" else interps[:2]:
                     cells.append((path, py.replace(" -E", ""), m, envname))
+    from engine import explorer
+
+    for vpath in ("exec", "via"):
+        r = explorer.run_once(VirtualBootScn.scenario, VirtualBootScn.oracle, {"path": vpath}, [], horizon=2000000)
+        if r.violation is not None:
+            rep.violation(r.violation[0], r.violation[1], {"check": PID, "sub": "virtual-boot", "path": vpath})
+    rep.add_enumeration("virtual-pipe-bootstrap", 2, 2)
     res = pmap(lambda chunk: [cell(c) for c in chunk], [cells[i::16] for i in range(16)])
     flat = {c: o for chunk in res for c, o in chunk}
 
